@@ -41,6 +41,8 @@ def main():
     ran = []
     try:
         env = {"PYTHONPATH": wt, "NUMBA_NUM_THREADS": "4"}
+        import shutil
+        demo_path = shutil.copy(demo_path, os.path.join(wt, "_seed_demo.py"))  # some demos locate the repo by their own path
         rc0, out0 = sh(["/venv/bin/python", demo_path], cwd=wt, env=env, timeout=7200)
         ran.append(f"demo on clean tree: exit {rc0}")
         rca, outa = sh(["git", "-C", wt, "apply", patch])
@@ -72,9 +74,13 @@ def main():
                 except Exception:  # noqa
                     pass
                 break
+        meta = json.load(open(meta_path)) if os.path.exists(meta_path) else meta  # re-read: group_tests may have written
+        conf = dict(meta.get("confirmed", {}))
+        conf.update(demo_clean_exit=rc0, demo_changed_exit=rc1, patch_applies=rca == 0)
+        if tests is not None or "baseline_tests_pass" not in conf:
+            conf["baseline_tests_pass"] = tests
         meta.update(dict(
-            property=pid, confirmed=dict(demo_clean_exit=rc0, demo_changed_exit=rc1, patch_applies=rca == 0,
-                                         baseline_tests_pass=tests),
+            property=pid, confirmed=conf,
             check=dict(exit=rcc, tier=tier, verdict_lines=verdict[:6], first_replay=replay,
                        detected=rcc == 1), what_i_ran=ran))
         json.dump(meta, open(meta_path, "w"), indent=1)
